@@ -15,7 +15,7 @@ import (
 // fields reached through X are killed when X.<mutex>.Unlock()/RUnlock() is called.
 
 type Facts struct {
-	m    map[string]bool // atom -> truth
+	m    map[string]bool    // atom -> truth
 	rel  map[string]relAtom // relational atoms ("a < b", "a == b") with their operand syntax
 	info *types.Info
 }
@@ -311,7 +311,7 @@ func (g *Graph) GuardFacts() *Solution[Facts] {
 func (g *Graph) guardFacts() *Solution[Facts] {
 	info := g.Info
 	l := Lattice[Facts]{
-		Init: Facts{m: map[string]bool{}, rel: map[string]relAtom{}, info: info},
+		Init:  Facts{m: map[string]bool{}, rel: map[string]relAtom{}, info: info},
 		Join:  func(a, b Facts) Facts { return joinFacts(g, a, b, false) },
 		Widen: func(a, b Facts) Facts { return joinFacts(g, a, b, true) },
 		Eq: func(a, b Facts) bool {
